@@ -142,7 +142,19 @@ fn run_case<G: AffineRepr>(env: &Env<G>, c: &Case) -> CaseOut {
     let padded = total.next_power_of_two();
     let bp_p = env.bp_of(cap_of(c.cap_p, padded));
     let bp_v = env.bp_of(cap_of(c.cap_v, padded));
-    let po = prove::<G>(env, &prog, &[], &bp_p, c.seed ^ 0xabc);
+    // every 7th case runs prover and verifier with caller-chosen Pedersen bases (a random pair, or
+    // the two default bases swapped) instead of the default ones
+    let pc: ark_bulletproofs::PedersenGens<G> = match c.seed % 14 {
+        3 => {
+            use ark_ec::CurveGroup;
+            let rs = rand_scalars::<G>(c.seed ^ 0x9c, 2);
+            ark_bulletproofs::PedersenGens { B: crate::refv::smul(&env.pc.B, rs[0]).into_affine(), B_blinding: crate::refv::smul(&env.pc.B, rs[1]).into_affine() }
+        }
+        10 => ark_bulletproofs::PedersenGens { B: env.pc.B_blinding, B_blinding: env.pc.B },
+        _ => env.pc,
+    };
+    let custom_pc = c.seed % 14 == 3 || c.seed % 14 == 10;
+    let po = crate::interp::cur::prove_program::<G>(&prog, &[], &pc, &bp_p, c.seed ^ 0xabc);
     let m = &po.st.model;
     if m.n1() != c.cfg.n1 || m.n2() != c.cfg.n2 {
         o.inconclusive = Some(format!("generator produced n1={} n2={} for cfg {:?}", m.n1(), m.n2(), c.cfg));
@@ -152,8 +164,11 @@ fn run_case<G: AffineRepr>(env: &Env<G>, c: &Case) -> CaseOut {
         o.inconclusive = Some(format!("generated witness does not satisfy the model: {:?}", m.violations(true)));
         return o;
     }
-    o.sig(shape_sig(env.curve, m, po.st.closure_runs) + &format!("|cp={}|cv={}", c.cap_p, c.cap_v));
+    o.sig(shape_sig(env.curve, m, po.st.closure_runs) + &format!("|cp={}|cv={}|pc={}", c.cap_p, c.cap_v, custom_pc as u8));
     o.count("programs", 1);
+    if custom_pc {
+        o.count("programs with caller-chosen Pedersen bases", 1);
+    }
     o.count("gates_total", m.gates() as u64);
     o.count("rows_total", m.rows.len() as u64);
     for cr in &po.st.trace {
@@ -192,7 +207,7 @@ fn run_case<G: AffineRepr>(env: &Env<G>, c: &Case) -> CaseOut {
             return o;
         }
     };
-    let j = judge::<G>(env, &prog, &po.vs, proof, &mirror, &env.pc, &bp_v);
+    let j = judge::<G>(env, &prog, &po.vs, proof, &mirror, &pc, &bp_v);
     if !j.vo.st.mismatches.is_empty() {
         o.count("handle-mismatches(see C16)", j.vo.st.mismatches.len() as u64);
     }
@@ -203,7 +218,7 @@ fn run_case<G: AffineRepr>(env: &Env<G>, c: &Case) -> CaseOut {
     o.count("accepted", 1);
     if c.seed % 5 == 0 {
         // the plain `prove` wrapper under the same randomness must give the same proof
-        match crate::interp::cur::prove_plain::<G>(&prog, &env.pc, &bp_p, c.seed ^ 0xabc) {
+        match crate::interp::cur::prove_plain::<G>(&prog, &pc, &bp_p, c.seed ^ 0xabc) {
             Ok(p2) => {
                 if p2.to_bytes().ok() != proof.to_bytes().ok() {
                     o.violate("prove-entry-points-disagree", "Prover::prove and prove_and_return_transcript give different proofs under the same randomness", json!({"program": prog}));
@@ -224,10 +239,10 @@ fn run_case<G: AffineRepr>(env: &Env<G>, c: &Case) -> CaseOut {
         // the reference prover on its own transcript must produce something the real verifier accepts
         let need = draws_needed(m.n1(), m.n2());
         let draws = rand_scalars::<G>(c.seed ^ 0x77, need);
-        let g = env.gens();
+        let g = env.gens_with(&pc);
         if let Some(rp) = ref_prove::<G>(&prog, None, &g, Src::Own(crate::refv::app_transcript(&prog)), &draws, &Craft::default()) {
             if let Some(real) = rp.proof.to_real() {
-                let vo = crate::interp::cur::verify_program::<G>(&prog, &rp.vs, &real, &env.pc, &bp_v);
+                let vo = crate::interp::cur::verify_program::<G>(&prog, &rp.vs, &real, &pc, &bp_v);
                 match vo.res {
                     Ok(()) => o.count("reference-prover-proof-accepted", 1),
                     Err(e) => o.count(&format!("note: reference prover's proof not accepted ({}); transcript schedule may differ (see C03/C06/C18)", err_name(&e)), 1),
